@@ -9,43 +9,71 @@ from leanfmt import lean_list
 
 ID = "C18"
 LEAN_MODULES = ["EzdxfVerif.Props.C18"]
-DRIVER_DEPS = ["EzdxfVerif.Model.Render", "EzdxfVerif.Gen.RenderTables", "Drivers.Proto"]
+DRIVER_DEPS = ["EzdxfVerif.Model.Render", "EzdxfVerif.Gen.RenderTables", "EzdxfVerif.Gen.RenderShape", "Drivers.Proto"]
 RULE = (
+    "regenerate: Gen/RenderTables (constants, default plot style table, layer defaults, probed every run) and Gen/RenderShape: the "
+    "statement order and the early-exit count of draw_composite_entity (INSERT branch), draw_insert, draw_entity, _draw_entities, "
+    "push_state/pop_state, and where filter_func is passed, extracted from the AST of frontend.py / properties.py; the theorems "
+    "tie_push_pop_shape and tie_traversal_shape state that they equal the shape the Lean model transcribes. "
     "correspondence: seeded generator documents built through the public ezdxf API (LINE, POINT, LWPOLYLINE, SOLID, CIRCLE, "
-    "ATTDEF in blocks, INSERT with ATTRIBs, EMPTY block definitions referenced before other entities; random layer tables with off/frozen/locked/no-plot/true-color/transparent layers and "
-    "boundary ACI values, mixed-case and undefined layer references; BYLAYER/BYBLOCK/BYOBJECT/explicit ACI, true color, "
-    "transparency, linetype, lineweight, invisible flag on every nesting level; nesting depth <= 4; INSERT translations, "
-    "positive/negative/non-uniform scales, rotations by multiples of 90 degrees, extrusion (0,0,-1), block base points; "
-    "modelspace and paperspace, export_mode on/off; plus cyclic and dangling block references as error classes). "
-    "X1 draw: Frontend(RenderContext(doc), Recorder-probe, line_policy=SOLID, text_policy=IGNORE).draw_layout(layout) -> "
-    "Player.recordings() canonicalised (kind, #rrggbb[aa], pen, layer, linetype name, lineweight as fraction, coordinates rounded "
-    "to the 2^-12 grid and required to be within 1e-6 of it; exception class for errors) vs. the Lean model's drawLayout on the "
-    "same document, which must also end with the initial state stack. X2 spec: the same observation vs. Spec.flatten of the Lean "
-    "block tree (unfold) for every document ('no-tree' when a bad reference hides below an invisible INSERT). X3 reach: the model's validity "
-    "predicate (hypothesis of draw_total) vs. a graph walk of the harness (acyclic and closed). "
-    "non-trivial = the layout has a visible INSERT; distinct by hash of the request line. "
+    "ATTDEF in blocks, INSERT and MINSERT (row/column counts and spacings, zero spacing, nested and at the top level) with ATTRIBs, "
+    "EMPTY block definitions referenced before other entities; random layer tables with off/frozen/locked/no-plot/true-color/"
+    "transparent layers and boundary ACI values, mixed-case and undefined layer references; BYLAYER/BYBLOCK/BYOBJECT/explicit ACI, "
+    "true color, transparency, linetype, lineweight, invisible flag on every nesting level; nesting depth <= 4; INSERT translations, "
+    "positive/negative/non-uniform scales, extrusion (0,0,-1), block base points; rotations by multiples of 90 degrees (streams X1, "
+    "X2: exact comparison on the 2^-12 grid) and by arbitrary angles with rational cosine and sine (Pythagorean triples; streams X1r, "
+    "X2r: the model answers in exact rationals, coordinates are compared with |d| <= 1e-9(1+|x|), everything else exactly; documents "
+    "with uniformly scaled references = the class of draw_eq_spec_uniform, and documents with any scales, where a sheared nested "
+    "INSERT makes the code take the explode fall-back that the model follows); modelspace and paperspace, export_mode on/off; a third "
+    "of the runs with a generated plot style table (CTB) that overrides lineweights and colours of some ACIs, a quarter with a "
+    "filter_func that rejects some layout entities; plus cyclic and dangling block references as error classes. "
+    "X1/X1r draw: Frontend(RenderContext(doc[, ctb]), Recorder-probe, line_policy=SOLID, text_policy=IGNORE).draw_layout(layout"
+    "[, filter_func]) -> Player.recordings() canonicalised (kind, #rrggbb[aa], pen, layer, linetype name, lineweight as fraction, "
+    "BackendProperties.handle, coordinates; exception class for errors) vs. the Lean model's drawLayout / drawLayoutFiltered on the "
+    "same document (entity handles as the document assigned them), which must also end with the initial state stack. X2/X2r spec: "
+    "the same observation vs. Spec.flatten of the Lean block tree (unfold) for every document without a sheared reference ('no-tree' "
+    "when a bad reference hides below an invisible INSERT). X3 reach: the model's validity predicate (hypothesis of draw_total) vs. a "
+    "graph walk of the harness (acyclic and closed). X4 lawful: the model's Forest.lawful (hypothesis of draw_eq_spec) vs. an "
+    "independent floating point shear test of the harness along every INSERT path. X5 layer table: RenderContext.from_viewport(vp)."
+    "layers for a VIEWPORT with frozen layers and per-viewport layer property overrides (as stored in the document; overrides of "
+    "another viewport must not leak) vs. the model's mkVpCtxOv / applyOverride (key, name, colour, pen, linetype, lineweight, "
+    "visible, ACI-7 flag of every layer). X6: the status values for which _draw_viewports calls draw_viewport vs. viewportsDrawn. "
+    "X8: a paperspace layout with 1-3 top-view VIEWPORT entities (status values incl. active / off, frozen layers, per-viewport "
+    "overrides, dyadic scale and offset, the whole modelspace visible) vs. drawLayoutVp. X9: layouts with a redraw order table "
+    "(set_redraw_order: colliding, zero and foreign sort handles; with and without filter_func) vs. drawLayoutOrdered. "
+    "X7: draw_layout after RenderContext.set_layer_properties_override(f) for f in {all layers on, all layers off, one colour / "
+    "linetype / lineweight} vs. drawLayout on Ctx.overrideLayers. "
+    "non-trivial = the layout has a visible INSERT (X1-X4), a non-empty frozen list (X5), more than one viewport (X6); distinct by "
+    "hash of the request line. "
     "oracle O1: the real front end vs. an independent pure-Python transliteration of the specification (matrix product along the "
-    "path, DXF inheritance rules): exact for quarter-turn documents, |d| <= 1e-9(1+|x|) for general rotation angles; "
-    "circles by center and by the radius of every flattened vertex under the inverse composed map; never raises for audited "
-    "documents; state stack empty afterwards. O2: CustomJSONBackend output (direct and via Player.replay) vs. the recorder "
-    "primitives. O3: LinePolicy.ACCURATE: every dash lies on the expected transformed geometry, same properties. "
-    "O4: BackendProperties.handle is the handle of the top level entity."
+    "path, DXF inheritance rules, MINSERT = block repeated rows x columns times along the rotated axes, plot style table lineweight "
+    "by the raw ACI, filter_func on layout entities only): exact for quarter-turn documents, |d| <= 1e-9(1+|x|) for general rotation "
+    "angles (degrees and rational cos/sin); circles by center and by the radius of every flattened vertex under the inverse composed "
+    "map; never raises for audited documents; state stack empty afterwards. O2: CustomJSONBackend output (direct and via "
+    "Player.replay) vs. the recorder primitives. O3: LinePolicy.ACCURATE: every dash lies on the expected transformed geometry, same "
+    "properties. O5: paperspace layouts with 1-3 viewports: own entities, then per drawn viewport (documented status rule) the "
+    "modelspace content as the document defines it for that viewport (frozen layers and property overrides at EVERY nesting depth), "
+    "mapped by scale and offset. O4: BackendProperties.handle of EVERY primitive: own handle for layout entities and for the ATTRIBs attached "
+    "directly to a top level INSERT, handle of the top level reference for everything else (block content at any depth, MINSERT "
+    "elements, nested ATTRIBs)."
 )
 TRUSTED_BASE = [
     "entity.transform(m) of LINE/POINT/LWPOLYLINE/SOLID/ATTRIB maps the defining points by m (C12's subject; tied here by the correspondence stream)",
     "CIRCLE/ELLIPSE path construction is not modelled: the model emits the transformed center only, the oracle checks the curve under tolerance",
-    "default plot style table (acadctb.new_ctb: every entry OBJECT_LINEWEIGHT/OBJECT_LINETYPE, AutoCAD default palette) - tabulated into Gen/RenderTables on every run",
-    "the model's vector norm is |x|+|y| and equals the Euclidean norm only for axis-aligned vectors: the Lean model covers rotations by multiples of 90 degrees (explicit predicates AxisUnit / Monomial / InsUniform in the theorems); general angles are covered by the oracle only",
+    "the hand translation of properties.py / frontend.py / explode.py / insert.py / transformtools.py into Model/Render.lean is validated by the correspondence streams and by the AST-shape ties, not proved",
+    "numbers: the model computes in exact rationals; InsertCoordinateSystem.transform's tolerance tests (|ux.uy| > 1e-9 on normalised vectors, isclose for the handedness) are exact tests in the model; vector lengths must be rational (Pythagorean directions) - otherwise the model answers 'outside irrational' and the case is only counted",
+    "plot style table: the effective table of the live RenderContext (plot_styles[aci].color, get_lineweight(aci) for entries that are not OBJECT_LINEWEIGHT) is read from the running code and handed to the model; loading CTB files and linetype overrides of plot styles are not modelled",
     "ASCII layer / linetype / block names (str.lower/upper modelled for ASCII)",
 ]
 ASSUMPTIONS = [
-    "documents of the generator: non-text geometry, nesting depth <= 4, extrusion (0,0,+-1), z = 0, zscale = 1, no MINSERT, no XCLIP, no redraw order table, $PDMODE = 0",
-    "Configuration(line_policy=SOLID, text_policy=IGNORE) for the correspondence stream (linetype pattern rendering and text pipelines are outside the model)",
+    "documents of the generator: non-text geometry (ATTRIB/ATTDEF appear as pseudo primitives at their insert point), nesting depth <= 4, extrusion (0,0,+-1), z = 0, zscale = 1, no XCLIP, no redraw order table, $PDMODE = 0, non-zero scale factors",
+    "Configuration(line_policy=SOLID, text_policy=IGNORE) for the correspondence streams (linetype pattern rendering and text pipelines are outside the model)",
 ]
 OPEN = [
-    "draw_eq_spec is proved at full strength for the modelled class: acyclic closed documents whose references are rotated by multiples of 90 degrees with non-zero scale factors (no uniformity hypothesis since fix 603b8b3fe); general rotation angles are oracle-only, and for them finding F20 (explode fall-back for sheared nested INSERTs drops the nested reference's state) remains",
-    "linetype pattern rendering, text/hatch/viewport pipelines, clipping (XCLIP), CTB overrides, MINSERT: not modelled",
-    "BackendProperties.handle is not modelled (oracle O4 only)",
+    "draw_eq_spec holds for every document whose block tree passes the decidable check Forest.lawful (no reference is sheared); proved to pass outright: quarter-turn documents and uniformly scaled documents with arbitrary rational rotations, MINSERT included. For the remaining documents (a rotated reference below a non-uniformly scaled one) the code takes the explode fall-back, which the model follows (transformOne/explode) and which does NOT draw what the document defines: finding F20 stays open (not fixed: needs a new protocol between explode.py and frontend.py)",
+    "rotation angles whose cosine/sine are irrational (30 degrees ...) are oracle-only (O1, tolerance 1e-9)",
+    "linetype pattern rendering, text/hatch/viewport content pipelines (draw_viewport itself), clipping (XCLIP), linetype overrides of plot style tables, the JSON backend, circle shapes and dashed linetypes: oracle-only or not modelled",
+    "3DFACE edge visibility, proxy graphics, DXFGraphicProxy wrapping and the VIEWPORT deferral of _draw_entities are in the AST-shape tie only (statement order), not in the executable model",
 ]
 
 GRID = 4096
@@ -88,6 +116,7 @@ def regenerate(ctx):
         for i in range(1, 256)
     )
     alpha = [P.transparency_to_alpha(colors.transparency2float(0x02000000 | a)) for a in range(256)]
+    rt = [colors.float2transparency(colors.transparency2float(0x02000000 | a)) & 0xFF for a in range(256)]
     d = P.DEFAULT_LAYER_PROPERTIES
     dflt_rgb = int(d.color[1:7], 16)
     psp_fg = P.LayoutProperties("Layout1", P.PAPER_SPACE_BG_COLOR).default_color
@@ -119,6 +148,9 @@ def aciRgb : List Nat := {lean_list(str(x) for x in aci)}
 def ctbAllObject : Bool := {b(ctb_object)}
 /-- transparency_to_alpha(transparency2float(0x02000000 | a)) for a in 0..255 -/
 def layerAlpha : List Nat := {lean_list(str(x) for x in alpha)}
+/-- float2transparency(transparency2float(0x02000000 | a)) & 0xFF for a in 0..255: what `_apply_layer_overrides` does to the
+    transparency of a layer that has a per-viewport override (`layer.transparency = overrides.get_transparency(vp)`) -/
+def transparencyRoundTrip : List Nat := {lean_list(str(x) for x in rt)}
 /-- default foreground colors of the modelspace and of a paperspace layout -/
 def mspFg : Nat := {int(fg[1:7], 16)}
 def pspFg : Nat := {int(psp_fg[1:7], 16)}
@@ -135,6 +167,154 @@ def dfltLayerName : String := "{d.layer}"
 end EzdxfVerif.Gen.RenderTables
 """
     ctx.write_gen("RenderTables", text, srcs)
+    shape_srcs = ["src/ezdxf/addons/drawing/frontend.py", "src/ezdxf/addons/drawing/properties.py"]
+    ctx.write_gen("RenderShape", render_shape(ctx.src(shape_srcs[0]), ctx.src(shape_srcs[1])), shape_srcs)
+
+
+# ---------------------------------------------------------------------- control flow shape extracted from the AST
+def _stmt_sig(node):
+    """one line per statement: kind + the called name / tested expression (ast.unparse), no bodies"""
+    import ast
+
+    if isinstance(node, ast.Expr) and isinstance(node.value, ast.Call):
+        return "call " + ast.unparse(node.value.func)
+    if isinstance(node, ast.Assign):
+        v = node.value
+        rhs = ("call " + ast.unparse(v.func)) if isinstance(v, ast.Call) else ast.unparse(v)
+        return "assign " + ",".join(ast.unparse(t) for t in node.targets) + " = " + rhs
+    if isinstance(node, ast.If):
+        return "if " + ast.unparse(node.test)
+    if isinstance(node, ast.For):
+        return "for " + ast.unparse(node.target) + " in " + ast.unparse(node.iter)
+    if isinstance(node, ast.FunctionDef):
+        return "def " + node.name
+    if isinstance(node, ast.Expr) and isinstance(node.value, ast.Constant):
+        return "doc"
+    return type(node).__name__.lower()
+
+
+def _exits(nodes):
+    """number of statements that leave the enclosing function or loop early (not inside nested function definitions)"""
+    import ast
+
+    n = 0
+    todo = list(nodes)
+    while todo:
+        x = todo.pop()
+        if isinstance(x, (ast.FunctionDef, ast.Lambda, ast.AsyncFunctionDef)):
+            continue
+        if isinstance(x, (ast.Return, ast.Raise, ast.Break, ast.Continue, ast.Yield, ast.YieldFrom, ast.Try, ast.With)):
+            n += 1
+        todo.extend(ast.iter_child_nodes(x))
+    return n
+
+
+def _find_func(tree, name, cls=None):
+    import ast
+
+    for node in ast.walk(tree):
+        if cls is not None:
+            if isinstance(node, ast.ClassDef) and node.name == cls:
+                for sub in node.body:
+                    if isinstance(sub, ast.FunctionDef) and sub.name == name:
+                        return sub
+        elif isinstance(node, ast.FunctionDef) and node.name == name:
+            return node
+    raise KeyError(name)
+
+
+def _calls(node, attr):
+    import ast
+
+    return sum(1 for x in ast.walk(node) if isinstance(x, ast.Call) and isinstance(x.func, ast.Attribute) and x.func.attr == attr)
+
+
+def render_shape(frontend_src, properties_src):
+    """statement order and exit paths of the functions the model transcribes, as Lean data (theorem tie_push_pop_shape)"""
+    import ast
+    from leanfmt import lean_str
+
+    ft = ast.parse(frontend_src)
+    pt = ast.parse(properties_src)
+    dce = _find_func(ft, "draw_composite_entity", "UniversalFrontend")
+    body = [n for n in dce.body if _stmt_sig(n) != "doc"]
+    draw_insert = next(n for n in body if isinstance(n, ast.FunctionDef) and n.name == "draw_insert")
+    top_if = next(n for n in body if isinstance(n, ast.If))
+    insert_branch = top_if.body
+    di_body = [n for n in draw_insert.body if _stmt_sig(n) != "doc"]
+    de = _find_func(ft, "draw_entity", "UniversalFrontend")
+    de_body = [n for n in de.body if _stmt_sig(n) != "doc"]
+    loop = _find_func(ft, "_draw_entities")
+    loop_for = next(n for n in loop.body if isinstance(n, ast.For))
+    push = _find_func(pt, "push_state", "RenderContext")
+    pop = _find_func(pt, "pop_state", "RenderContext")
+    dl = _find_func(ft, "draw_layout", "UniversalFrontend")
+    dl_body = [n for n in dl.body if _stmt_sig(n) != "doc"]
+    dl_if = next((n for n in dl_body if isinstance(n, ast.If) and "handle_mapping" in ast.unparse(n.test)), None)
+
+    def first_arg(stmts):
+        for n in stmts:
+            if isinstance(n, ast.Expr) and isinstance(n.value, ast.Call) and n.value.args:
+                return ast.unparse(n.value.args[0])
+        return ""
+
+    cb = _find_func(ft, "draw_entities_callback", "UniversalFrontend")
+    cb_body = [n for n in cb.body if _stmt_sig(n) != "doc"]
+    cb_try = next((n for n in cb_body if isinstance(n, ast.Try)), None)
+
+    def sigs(nodes):
+        return "[" + ", ".join(lean_str(_stmt_sig(n)) for n in nodes) + "]"
+
+    def sub_sigs(node):
+        return sigs(node.body) + ", " + sigs(node.orelse)
+
+    mc_if = next((n for n in insert_branch if isinstance(n, ast.If)), None)
+    return f"""
+namespace EzdxfVerif.Gen.RenderShape
+
+/-- `draw_composite_entity`: test of the top level `if`, statements of its INSERT branch in order -/
+def insertTest : String := {lean_str(ast.unparse(top_if.test))}
+def insertBranch : List String := {sigs(insert_branch)}
+/-- the `if entity.mcount > 1` statement inside: then-branch, else-branch -/
+def mcountThen : List String := {sigs(mc_if.body) if mc_if else "[]"}
+def mcountThenLoop : List String := {sigs(mc_if.body[0].body) if mc_if and isinstance(mc_if.body[0], ast.For) else "[]"}
+def mcountElse : List String := {sigs(mc_if.orelse) if mc_if else "[]"}
+/-- statements that leave early (return / raise / break / continue / yield / try / with) inside the INSERT branch -/
+def insertBranchExits : Nat := {_exits(insert_branch)}
+/-- `draw_insert` (nested function): statements in order, early exits -/
+def drawInsert : List String := {sigs(di_body)}
+def drawInsertExits : Nat := {_exits(di_body)}
+/-- `push_state` / `pop_state` calls in the whole of frontend.py -/
+def pushCalls : Nat := {_calls(ft, "push_state")}
+def popCalls : Nat := {_calls(ft, "pop_state")}
+/-- `RenderContext.push_state` / `pop_state` bodies -/
+def pushBody : List String := {sigs([n for n in push.body if _stmt_sig(n) != "doc"])}
+def popBody : List String := {sigs([n for n in pop.body if _stmt_sig(n) != "doc"])}
+/-- `draw_entity`: first statements, and the early exits of the whole body -/
+def drawEntityHead : List String := {sigs(de_body[:2])}
+def drawEntityHandleSet : List String := {sigs(de_body[1].body) if isinstance(de_body[1], ast.If) else "[]"}
+def drawEntityTail : String := {lean_str(_stmt_sig(de_body[-1]))}
+def drawEntityExits : Nat := {_exits(de_body)}
+/-- `_draw_entities`: statements before the loop, loop body in order, the `if properties.is_visible` branches -/
+def loopPrefix : List String := {sigs([n for n in loop.body if n is not loop_for and loop.body.index(n) < loop.body.index(loop_for)])}
+def loopBody : List String := {sigs(loop_for.body)}
+def loopVisible : List String := {sigs(loop_for.body[-1].body) if isinstance(loop_for.body[-1], ast.If) else "[]"}
+def loopInvisible : List String := {sigs(loop_for.body[-1].orelse) if isinstance(loop_for.body[-1], ast.If) else "[]"}
+/-- `draw_layout`: statements in order; what is drawn with / without a redraw order table -/
+def layoutBody : List String := {sigs(dl_body)}
+def layoutOrdered : String := {lean_str(first_arg(dl_if.body) if dl_if else "")}
+def layoutPlain : String := {lean_str(first_arg(dl_if.orelse) if dl_if else "")}
+/-- `draw_entities_callback` (used by `pipeline.draw_viewport`): statements, body of its `try`, its `finally` -/
+def callbackBody : List String := {sigs(cb_body)}
+def callbackTry : List String := {sigs(cb_try.body) if cb_try else "[]"}
+def callbackFinally : List String := {sigs(cb_try.finalbody) if cb_try else "[]"}
+/-- calls of `draw_entities` in `draw_layout` and how many of them pass `filter_func`; in the rest of frontend.py -/
+def layoutDrawCalls : Nat := {_calls(dl, "draw_entities")}
+def layoutFilterArgs : Nat := {sum(1 for x in ast.walk(dl) if isinstance(x, ast.Call) and isinstance(x.func, ast.Attribute) and x.func.attr == "draw_entities" and any(k.arg == "filter_func" for k in x.keywords))}
+def otherFilterArgs : Nat := {sum(1 for x in ast.walk(ft) if isinstance(x, ast.Call) and isinstance(x.func, ast.Attribute) and x.func.attr == "draw_entities" and any(k.arg == "filter_func" for k in x.keywords)) - sum(1 for x in ast.walk(dl) if isinstance(x, ast.Call) and isinstance(x.func, ast.Attribute) and x.func.attr == "draw_entities" and any(k.arg == "filter_func" for k in x.keywords))}
+
+end EzdxfVerif.Gen.RenderShape
+"""
 
 
 # ====================================================================== abstract documents
@@ -154,6 +334,10 @@ LINETYPES = ["BYLAYER", "BYBLOCK", "Continuous", "DASHED", "center", "ByLayer", 
 LINEWEIGHTS = [-1, -2, -3, 0, 5, 13, 25, 50, 100, 211]
 TRANSP = [None, None, None, BYBLOCK_T, 0x02000000, 0x0200007F, 0x020000FE, 0x020000FF]
 SCALES = [Fr(1), Fr(1), Fr(-1), Fr(2), Fr(-2), Fr(1, 2), Fr(-1, 2), Fr(3)]
+# rational points of the unit circle (cos, sin): quarter turns and Pythagorean triples in all quadrants
+UNIT_DIRS = [(Fr(1), Fr(0)), (Fr(0), Fr(1)), (Fr(-1), Fr(0)), (Fr(0), Fr(-1)),
+             (Fr(3, 5), Fr(4, 5)), (Fr(4, 5), Fr(3, 5)), (Fr(-3, 5), Fr(4, 5)), (Fr(3, 5), Fr(-4, 5)), (Fr(-4, 5), Fr(-3, 5)),
+             (Fr(5, 13), Fr(12, 13)), (Fr(-12, 13), Fr(5, 13)), (Fr(8, 17), Fr(-15, 17)), (Fr(7, 25), Fr(24, 25))]
 
 
 def _case_variant(rng, name):
@@ -231,19 +415,28 @@ def gen_leaf(rng, layers, inside, allow_attdef):
 
 
 def gen_insert(rng, layers, inside, target, mode):
-    """mode: 'quarter' | 'safe' (lawful nesting) | 'angle' (general angles, uniform scales) | 'angle-any'"""
+    """mode: 'quarter' | 'safe' (lawful nesting) | 'angle' (general angles, uniform scales) | 'angle-any' |
+    'rational' (rational (cos, sin), |sx| = |sy|: the uniform class) | 'rational-any' (rational (cos, sin), any scales)"""
     e = {"t": "INSERT", **gen_props(rng, layers, inside), "name": target}
     e["pos"] = _pt(rng, 8)
     sx = rng.choice(SCALES)
     sy = rng.choice(SCALES)
-    if mode in ("safe", "angle") or rng.random() < 0.5:
+    if mode in ("safe", "angle", "rational") or rng.random() < 0.5:
         sy = sx if rng.random() < 0.5 else -sx
     e["sx"], e["sy"] = sx, sy
     if mode in ("angle", "angle-any"):
         e["rot"] = rng.choice([0.0, 30.0, 45.0, 90.0, 123.456, -77.25, 200.5, 359.0, 180.0])
+    elif mode in ("rational", "rational-any"):
+        c, sn = rng.choice(UNIT_DIRS) if rng.random() < 0.8 else rng.choice(UNIT_DIRS[:4])
+        e["cs"] = (c, sn)
+        e["rot"] = math.degrees(math.atan2(float(sn), float(c)))
     else:
         e["rot"] = 90.0 * rng.choice([0, 0, 1, 2, 3])
     e["flip"] = rng.random() < 0.15
+    e["grid"] = None
+    if rng.random() < 0.18:
+        # MINSERT: zero counts / zero spacings are legal and mean "no grid in that direction"
+        e["grid"] = (rng.choice([1, 2, 2, 3]), rng.choice([1, 2, 3]), Q * rng.choice([0, 6, 10, -8]), Q * rng.choice([0, 6, 12, -4]))
     e["attribs"] = []
     for _ in range(rng.choice([0, 0, 0, 1, 2])):
         a = gen_props(rng, layers, True)
@@ -330,8 +523,13 @@ def special_docs():
     def line(a, b, **kw):
         return {"t": "LINE", **P0, **kw, "pts": [a, b]}
 
-    def ins(name, pos=Z, sx=1, sy=1, rot=0.0, flip=False, **kw):
-        return {"t": "INSERT", **P0, **kw, "name": name, "pos": pos, "sx": Fr(sx), "sy": Fr(sy), "rot": rot, "flip": flip, "attribs": []}
+    def ins(name, pos=Z, sx=1, sy=1, rot=0.0, flip=False, grid=None, cs=None, **kw):
+        e = {"t": "INSERT", **P0, **kw, "name": name, "pos": pos, "sx": Fr(sx), "sy": Fr(sy), "rot": rot, "flip": flip,
+             "attribs": [], "grid": grid}
+        if cs is not None:
+            e["cs"] = cs
+            e["rot"] = math.degrees(math.atan2(float(cs[1]), float(cs[0])))
+        return e
 
     zero = {"color": 7, "linetype": "Continuous", "lineweight": -3, "true_color": None}
     docs = []
@@ -356,6 +554,19 @@ def special_docs():
                             ins("PART", pos=(Fr(0), Fr(3)), layer="DOORS", color=4, lineweight=30),
                             line((Fr(0), Fr(2)), (Fr(5), Fr(2)), color=0, linetype="BYBLOCK", lineweight=-2)],
                     "psp": [ins("EMPTY", color=1), ins("PART", color=0), line(Z, (Fr(1), Fr(0)), color=0)]}}))
+    # MINSERT: grid at the top level and nested (rotated, non-uniform), zero spacing in one direction, BYBLOCK content
+    docs.append(("minsert", {"mode": "quarter", "layers": [LAYER_SPECS[0]], "zero": zero, "blocks": [
+        {"name": "CELL", "base": (Fr(1, 2), Fr(0)), "ents": [line(Z, (Fr(1), Fr(0)), color=0, lineweight=-2), line(Z, (Fr(0), Fr(2)))]},
+        {"name": "ROW", "base": Z, "ents": [ins("CELL", rot=90.0, sx=2, sy=1, grid=(1, 3, Fr(0), Fr(5)), color=0)]}],
+        "layouts": {"msp": [ins("CELL", pos=(Fr(1), Fr(1)), rot=90.0, grid=(2, 3, Fr(4), Fr(3)), color=1, layer="Walls"),
+                            ins("ROW", pos=(Fr(0), Fr(20)), sx=1, sy=-2, rot=180.0, color=5, lineweight=50)],
+                    "psp": [ins("CELL", grid=(3, 3, Fr(2), Fr(0)), color=2), ins("CELL", grid=(1, 2, Fr(2), Fr(3)), color=3)]}}))
+    # general rotations (3-4-5 below 5-12-13, uniform scales, mirror): the uniform class of draw_eq_spec_uniform
+    docs.append(("rational", {"mode": "rational", "layers": [LAYER_SPECS[0]], "zero": zero, "blocks": [
+        {"name": "INNER", "base": Z, "ents": [line(Z, (Fr(5), Fr(0)), color=0)]},
+        {"name": "OUTER", "base": Z, "ents": [ins("INNER", pos=(Fr(1), Fr(0)), cs=(Fr(3, 5), Fr(4, 5)), color=0)]}],
+        "layouts": {"msp": [ins("OUTER", sx=2, sy=-2, cs=(Fr(5, 13), Fr(12, 13)), color=3)],
+                    "psp": [ins("OUTER", sx=2, sy=1, color=3)]}}))  # psp: the F20 shape (non-uniform above a rotated reference)
     # cycle and dangling reference
     docs.append(("cycle", {"mode": "quarter", "layers": [], "zero": zero, "blocks": [
         {"name": "A", "base": Z, "ents": [line(Z, (Fr(1), Fr(0))), ins("B")]},
@@ -393,30 +604,36 @@ def _f(p):
 
 
 def _add_entity(layout, e):
+    """adds the entity and records the handle the document gave it in e["_h"] (attribs: a["_h"])"""
     t = e["t"]
     if t == "LINE":
-        layout.add_line(_f(e["pts"][0]), _f(e["pts"][1]), dxfattribs=_attribs(e))
+        ent = layout.add_line(_f(e["pts"][0]), _f(e["pts"][1]), dxfattribs=_attribs(e))
     elif t == "POINT":
-        layout.add_point(_f(e["pts"][0]), dxfattribs=_attribs(e))
+        ent = layout.add_point(_f(e["pts"][0]), dxfattribs=_attribs(e))
     elif t == "LWPOLYLINE":
-        layout.add_lwpolyline([_f(p) for p in e["pts"]], close=e["closed"], dxfattribs=_attribs(e))
+        ent = layout.add_lwpolyline([_f(p) for p in e["pts"]], close=e["closed"], dxfattribs=_attribs(e))
     elif t == "SOLID":
-        layout.add_solid([_f(p) for p in e["pts"]], dxfattribs=_attribs(e))
+        ent = layout.add_solid([_f(p) for p in e["pts"]], dxfattribs=_attribs(e))
     elif t == "CIRCLE":
-        layout.add_circle(_f(e["pts"][0]), float(e["r"]), dxfattribs=_attribs(e))
+        ent = layout.add_circle(_f(e["pts"][0]), float(e["r"]), dxfattribs=_attribs(e))
     elif t == "ATTDEF":
-        layout.add_attdef("TAG", _f(e["pts"][0]), "dflt", dxfattribs=_attribs(e))
+        ent = layout.add_attdef("TAG", _f(e["pts"][0]), "dflt", dxfattribs=_attribs(e))
     elif t == "INSERT":
         extra = {"xscale": float(e["sx"]), "yscale": float(e["sy"]), "rotation": e["rot"]}
         if e["flip"]:
             extra["extrusion"] = (0, 0, -1)
-        ins = layout.add_blockref(e["name"], _f(e["pos"]), dxfattribs=_attribs(e, extra))
+        if e.get("grid"):
+            rows, cols, rsp, csp = e["grid"]
+            extra.update({"row_count": rows, "column_count": cols, "row_spacing": float(rsp), "column_spacing": float(csp)})
+        ent = ins = layout.add_blockref(e["name"], _f(e["pos"]), dxfattribs=_attribs(e, extra))
         for a in e["attribs"]:
             at = ins.add_attrib("TAG", "txt", _f(a["pos"]), dxfattribs=_attribs(a))
             if a["flag"]:
                 at.is_invisible = True
+            a["_h"] = int(at.dxf.handle, 16)
     else:
         raise ValueError(t)
+    e["_h"] = int(ent.dxf.handle, 16)
 
 
 def build(desc):
@@ -468,19 +685,35 @@ def _probe_class():
             super().__init__()
             self.cur = None
             self.tags = []  # parallel to self.records: (dxftype, linetype_name)
+            self.pipe = None  # the render pipeline of the front end (for the current entity handle)
+            self.stack = []
 
         def enter_entity(self, entity, properties):
+            t = entity.dxftype()
+            self.cur = (t, properties.linetype_name)
+            self.stack.append((entity, properties))
+
+        def exit_entity(self, entity):
             from ezdxf.addons.drawing.recorder import PointsRecord
             from ezdxf.npshapes import NumpyPoints2d
             from ezdxf.addons.drawing.properties import BackendProperties
 
+            ent, properties = self.stack.pop()
             t = entity.dxftype()
-            self.cur = (t, properties.linetype_name)
             if t in ("ATTRIB", "ATTDEF"):
-                # text pipeline is switched off: record the entity as a pseudo primitive at its WCS insert point
+                # text pipeline is switched off: record the entity as a pseudo primitive at its WCS insert point, with the
+                # entity handle the pipeline would put into BackendProperties at this moment
                 p = entity.ocs().to_wcs(entity.dxf.insert)
-                rec = PointsRecord(NumpyPoints2d((p.vec2,)))
-                self.store(rec, BackendProperties(properties.color, properties.lineweight, properties.layer, properties.pen, ""))
+                p2 = p.vec2
+                if self.pipe is not None and self.pipe.clipping_portal.is_active:
+                    # inside a VIEWPORT: what the pipeline does to every point primitive (matrix of the viewport, clipping)
+                    p2 = self.pipe.clipping_portal.clip_point(p2)
+                    if p2 is None:
+                        return
+                rec = PointsRecord(NumpyPoints2d((p2,)))
+                h = self.pipe._current_entity_handle if self.pipe is not None else ""
+                self.cur = (t, properties.linetype_name)
+                self.store(rec, BackendProperties(properties.color, properties.lineweight, properties.layer, properties.pen, h))
                 self.tags[-1] = (t, properties.linetype_name, "text")
 
         def store(self, record, properties):
@@ -490,7 +723,30 @@ def _probe_class():
     return Probe
 
 
-def observe(doc, layout_name="msp", export=False, line_policy="SOLID"):
+LAYER_OVERRIDES = ("allon", "alloff", "mono")
+
+
+def layer_override_func(name):
+    """the functions handed to RenderContext.set_layer_properties_override (edit the resolved LayerProperties in place)"""
+    def allon(layers):
+        for lp in layers:
+            lp.is_visible = True
+
+    def alloff(layers):
+        for lp in layers:
+            lp.is_visible = False
+
+    def mono(layers):
+        for lp in layers:
+            lp.color = "#112233"
+            lp.has_aci_color_7 = False
+            lp.lineweight = 0.5
+            lp.linetype_name = "MONO"
+
+    return {"allon": allon, "alloff": alloff, "mono": mono}[name]
+
+
+def observe(doc, layout_name="msp", export=False, line_policy="SOLID", ctb=None, filter_func=None, layer_override=None):
     """run the real front end; returns ('ok', [prim...], ctx) or ('err', ExceptionName).
     prim = dict(kind, color, pen, layer, ltype, lw, pts(float pairs), handle, dxftype, path)"""
     from ezdxf.addons.drawing import Frontend, RenderContext
@@ -500,9 +756,13 @@ def observe(doc, layout_name="msp", export=False, line_policy="SOLID"):
     layout = doc.modelspace() if layout_name == "msp" else doc.layout("Layout1")
     rec = _probe_class()()
     cfg = Configuration(line_policy=getattr(LinePolicy, line_policy), text_policy=TextPolicy.IGNORE)
-    rctx = RenderContext(doc, export_mode=export)
+    rctx = RenderContext(doc, export_mode=export) if ctb is None else RenderContext(doc, export_mode=export, ctb=ctb)
+    if layer_override is not None:
+        rctx.set_layer_properties_override(layer_override_func(layer_override))
     try:
-        Frontend(rctx, rec, config=cfg).draw_layout(layout)
+        fe = Frontend(rctx, rec, config=cfg)
+        rec.pipe = fe.pipeline
+        fe.draw_layout(layout, filter_func=filter_func)
     except RecursionError:
         return ("err", "RecursionError")
     except Exception as e:  # noqa
@@ -558,25 +818,72 @@ def canon(obs):
     for p in obs[1]:
         lw = Fr(p["lw"]).limit_denominator(1000)
         pts = " ".join(_grid(x) + " " + _grid(y) for x, y in p["pts"])
-        out.append(",".join([p["kind"], p["color"], str(p["pen"]), p["layer"], p["ltype"], _rat(lw), pts]))
+        out.append(",".join([p["kind"], p["color"], str(p["pen"]), p["layer"], p["ltype"], _rat(lw), str(_hnum(p["handle"])), pts]))
     return "ok " + ";".join(out)
+
+
+def _hnum(h):
+    return int(h, 16) if h else 0
+
+
+def parse_model_prims(resp):
+    """'ok prim;prim...' of the Lean driver -> list of (fields tuple, [(Fraction, Fraction)...])"""
+    body = resp[3:]
+    out = []
+    if not body:
+        return out
+    for pr in body.split(";"):
+        f = pr.split(",")
+        nums = [Fr(x) for x in f[7].split()] if f[7] else []
+        out.append((tuple(f[:7]), list(zip(nums[0::2], nums[1::2]))))
+    return out
+
+
+def approx_equal(obs, model_resp, tol=1e-9):
+    """real front end observation vs exact model response: all properties equal, coordinates within tol*(1+|x|)"""
+    if obs[0] == "err":
+        return model_resp == "err " + obs[1]
+    if not model_resp.startswith("ok"):
+        return False
+    if model_resp.startswith("ok-unbalanced"):
+        return False
+    mp = parse_model_prims(model_resp)
+    if len(mp) != len(obs[1]):
+        return False
+    for p, (f, pts) in zip(obs[1], mp):
+        lw = Fr(p["lw"]).limit_denominator(1000)
+        mine = (p["kind"], p["color"], str(p["pen"]), p["layer"], p["ltype"], _rat(lw), str(_hnum(p["handle"])))
+        if mine != f or len(pts) != len(p["pts"]):
+            return False
+        for (x, y), (mx, my) in zip(p["pts"], pts):
+            if not (_close(x, float(mx), tol) and _close(y, float(my), tol)):
+                return False
+    return True
 
 
 # ====================================================================== request encoding (document as the code sees it)
 def _enc_props(p, sep):
     tc = -1 if p["true_color"] is None else p["true_color"]
     tr = -1 if p["transparency"] is None else p["transparency"]
-    return sep.join([p["layer"], str(p["color"]), str(tc), p["linetype"], str(p["lineweight"]), str(p["invisible"]), str(tr)])
+    return sep.join([p["layer"], str(p["color"]), str(tc), p["linetype"], str(p["lineweight"]), str(p["invisible"]), str(tr),
+                     str(p.get("_h", 0))])
 
 
 def _enc_ent(e):
     t = e["t"]
     if t == "INSERT":
-        q = int(round(e["rot"] / 90.0)) % 4
-        assert abs(e["rot"] - 90.0 * round(e["rot"] / 90.0)) < 1e-12, "quarter-turn documents only"
+        if "cs" in e:
+            q = f"r{_rat(e['cs'][0])}_{_rat(e['cs'][1])}"
+        else:
+            q = str(int(round(e["rot"] / 90.0)) % 4)
+            assert abs(e["rot"] - 90.0 * round(e["rot"] / 90.0)) < 1e-12, "quarter-turn or rational (cos, sin) documents only"
         att = "&".join(_enc_props(a, "~") + f"~{a['flag']}~{_rat(a['pos'][0])}~{_rat(a['pos'][1])}" for a in e["attribs"])
-        return ",".join(["i", _enc_props(e, ","), e["name"], _rat(e["pos"][0]), _rat(e["pos"][1]), _rat(e["sx"]), _rat(e["sy"]),
-                         str(q), "1" if e["flip"] else "0", att])
+        f = ["i", _enc_props(e, ","), e["name"], _rat(e["pos"][0]), _rat(e["pos"][1]), _rat(e["sx"]), _rat(e["sy"]),
+             q, "1" if e["flip"] else "0", att]
+        if e.get("grid"):
+            rows, cols, rsp, csp = e["grid"]
+            f.append(f"{rows}_{cols}_{_rat(rsp)}_{_rat(csp)}")
+        return ",".join(f)
     kind = {"LINE": "line", "POINT": "point", "LWPOLYLINE": "pclosed" if e.get("closed") else "popen", "SOLID": "solid",
             "CIRCLE": "circle", "ATTDEF": "attdef"}[t]
     pts = " ".join(_rat(x) + " " + _rat(y) for x, y in e["pts"])
@@ -597,13 +904,60 @@ def read_layers(doc):
     return out
 
 
-def encode(desc, doc, layout_name, export):
+def encode(desc, doc, layout_name, export, ctb=None, keep=None, ents=None, ovf=None):
     layers = ";".join(",".join(str(x) for x in l) for l in read_layers(doc))
     blocks = "!".join(
         f"{b['name']},{_rat(b['base'][0])},{_rat(b['base'][1])}:" + ";".join(_enc_ent(e) for e in b["ents"]) for b in desc["blocks"]
     )
-    ents = ";".join(_enc_ent(e) for e in desc["layouts"][layout_name])
-    return "|".join([layout_name, "1" if export else "0", layers, blocks, ents])
+    ents = ";".join(_enc_ent(e) for e in (desc["layouts"][layout_name] if ents is None else ents))
+    f = [layout_name, "1" if export else "0", layers, blocks, ents]
+    if ctb is not None or keep is not None or ovf is not None:
+        f.append(enc_ctb(ctb) if ctb is not None else "")
+    if keep is not None:
+        f.append(";".join(str(h) for h in keep))
+    elif ovf is not None:
+        f.extend(["", ovf])
+    return "|".join(f)
+
+
+# ---------------------------------------------------------------------- plot style tables
+def gen_ctb(rng):
+    """a CTB with a few entries that override the object lineweight and / or the object colour"""
+    from ezdxf.addons import acadctb
+
+    ctb = acadctb.new_ctb()
+    for aci in rng.sample([1, 2, 3, 5, 6, 7, 8, 9, 30, 141, 250, 254, 255], rng.randint(2, 6)):
+        st = ctb[aci]
+        r = rng.random()
+        if r < 0.7:
+            st.set_lineweight(rng.choice([0.0, 0.05, 0.13, 0.25, 0.5, 0.7, 1.4, 2.11]))
+        if r > 0.4:
+            st.color = rng.choice([(10, 20, 30), (255, 0, 255), (0, 0, 0), (250, 250, 250)])
+    return ctb
+
+
+def ctb_tables(rctx):
+    """the effective tables of the live RenderContext: aci -> lineweight override (mm) and aci -> colour"""
+    from ezdxf.addons import acadctb
+
+    lw, col = {}, {}
+    for aci in range(1, 256):
+        st = rctx.plot_styles[aci]
+        if st.lineweight != acadctb.OBJECT_LINEWEIGHT:
+            lw[aci] = Fr(rctx.plot_styles.get_lineweight(aci)).limit_denominator(1000)
+        c = st.color
+        col[aci] = (c[0] << 16) | (c[1] << 8) | c[2]
+    return lw, col
+
+
+def enc_ctb(tables):
+    lw, col = tables
+    base = aci_table()
+    out = []
+    for aci in range(1, 256):
+        if aci in lw or col[aci] != base[aci]:
+            out.append(f"{aci}:{_rat(lw[aci]) if aci in lw else '-'}:{col[aci] if col[aci] != base[aci] else '-'}")
+    return ";".join(out)
 
 
 # ====================================================================== independent specification (oracle)
@@ -642,7 +996,9 @@ IDENT = M2(1, 0, 0, 1, 0, 0)
 def insert_matrix(e, base, exact):
     """what the DXF reference says an INSERT does: scale, rotate about the extrusion axis, OCS, translate, base point"""
     sx, sy = e["sx"], e["sy"]
-    if exact:
+    if exact and "cs" in e:
+        c, s = e["cs"]
+    elif exact:
         q = int(round(e["rot"] / 90.0)) % 4
         c, s = [(1, 0), (0, 1), (-1, 0), (0, -1)][q]
     else:
@@ -660,14 +1016,53 @@ def insert_matrix(e, base, exact):
     return M2(a, b, cc, d, ex * px - bx, py - by)
 
 
+def grid_cells(e, exact):
+    """what the DXF reference says a MINSERT is: the block repeated rows x columns times, spacing measured along the axes of
+    the (rotated) reference, not scaled; a zero spacing switches the repetition in that direction off.
+    Returns the list of (insert dict, attribs) per element."""
+    g = e.get("grid")
+    if not g:
+        return [e]
+    rows, cols, rsp, csp = g
+    n = (rows if rsp != 0 else 1) * (cols if csp != 0 else 1)
+    if n <= 1:
+        return [e]
+    if exact or "cs" in e:
+        if "cs" in e:
+            c, sn = e["cs"]
+        else:
+            c, sn = [(1, 0), (0, 1), (-1, 0), (0, -1)][int(round(e["rot"] / 90.0)) % 4]
+        if not exact:
+            c, sn = float(c), float(sn)
+    else:
+        c, sn = math.cos(math.radians(e["rot"])), math.sin(math.radians(e["rot"]))
+    out, seen = [], set()
+    for r in range(rows):
+        for k in range(cols):
+            off = (k * csp, r * rsp)
+            if off in seen:
+                continue
+            seen.add(off)
+            ox, oy = (off[0], off[1]) if exact else (float(off[0]), float(off[1]))
+            dx, dy = ox * c - oy * sn, ox * sn + oy * c
+            cell = dict(e)
+            cell["pos"] = (e["pos"][0] + dx, e["pos"][1] + dy)
+            ex = -1 if e["flip"] else 1  # the ATTRIBs move with their grid element in the WCS
+            cell["attribs"] = [dict(a, pos=(a["pos"][0] + ex * dx, a["pos"][1] + dy)) for a in e["attribs"]]
+            cell["_cell"] = True
+            out.append(cell)
+    return out
+
+
 def _hex(rgb):
     return "#%06x" % rgb
 
 
 class SpecCtx:
-    def __init__(self, layers, fg, export, aci_rgb):
+    def __init__(self, layers, fg, export, aci_rgb, ctb_lw=None):
         self.fg = fg
         self.aci = aci_rgb
+        self.ctb_lw = ctb_lw or {}
         self.layers = {}
         for name, color, tc, tr, lt, lw, flags, plot in layers:
             if tc >= 0:
@@ -726,7 +1121,9 @@ class SpecCtx:
             lt = "STANDARD" if env is None else env["ltype"]
         # lineweight
         lw = p["lineweight"]
-        if lw == -1:
+        if p["color"] in self.ctb_lw:
+            w = self.ctb_lw[p["color"]]
+        elif lw == -1:
             w = lp["lw"]
         elif lw == -2:
             w = Fr(1, 4) if env is None else env["lw"]
@@ -742,14 +1139,14 @@ class SpecCtx:
         return {"layer": layer, "color": col + alpha, "pen": pen, "ltype": lt, "lw": w, "visible": vis}
 
 
-def spec_flatten(desc, layout_name, layers, fg, export, aci_rgb, exact):
+def spec_flatten(desc, layout_name, layers, fg, export, aci_rgb, exact, ctb_lw=None, keep=None):
     """list of expected primitives; each carries the path of INSERTs that leads to it"""
-    sc = SpecCtx(layers, fg, export, aci_rgb)
+    sc = SpecCtx(layers, fg, export, aci_rgb, ctb_lw)
     blocks = {b["name"].lower(): b for b in desc["blocks"]}
     out = []
 
-    def emit(kind, rp, pts, path, extra=None):
-        out.append({"kind": kind, **rp, "pts": pts, "path": path, **(extra or {})})
+    def emit(kind, rp, pts, path, extra=None, src=None):
+        out.append({"kind": kind, **rp, "pts": pts, "path": path, "src": src, **(extra or {})})
 
     def walk(ents, env, acc, path, top):
         for e in ents:
@@ -759,12 +1156,14 @@ def spec_flatten(desc, layout_name, layers, fg, export, aci_rgb, exact):
                 if not rp["visible"]:
                     continue
                 blk = blocks[e["name"].lower()]
-                for a in e["attribs"]:
-                    ra = sc.resolve(a, rp, False, a["flag"])
-                    if ra["visible"]:
-                        emit("attrib", ra, [acc.apply(a["pos"])], path + [e])
-                m = insert_matrix(e, blk["base"], exact).then(acc)
-                walk(blk["ents"], rp, m, path + [e], False)
+                for cell in grid_cells(e, exact):
+                    for a in cell["attribs"]:
+                        ra = sc.resolve(a, rp, False, a["flag"])
+                        if ra["visible"]:
+                            emit("attrib", ra, [acc.apply(a["pos"] if exact else (float(a["pos"][0]), float(a["pos"][1])))], path + [e],
+                                 {"own": a if (not path and not cell.get("_cell")) else None})
+                    m = insert_matrix(cell, blk["base"], exact).then(acc)
+                    walk(blk["ents"], rp, m, path + [e], False)
                 continue
             if t == "ATTDEF" and not top:
                 continue
@@ -773,27 +1172,30 @@ def spec_flatten(desc, layout_name, layers, fg, export, aci_rgb, exact):
                 continue
             pts = [acc.apply(p) for p in e["pts"]]
             if t == "LINE":
-                emit("line", rp, pts, path)
+                emit("line", rp, pts, path, src=e)
             elif t == "POINT":
                 if rp["layer"].lower() != "defpoints":
-                    emit("point", rp, pts, path)
+                    emit("point", rp, pts, path, src=e)
             elif t == "ATTDEF":
-                emit("attdef", rp, pts, path)
+                emit("attdef", rp, pts, path, src=e)
             elif t == "LWPOLYLINE":
                 if len(pts) >= 2:
                     if e["closed"] and pts[-1] != pts[0]:
                         pts = pts + [pts[0]]
-                    emit("path", rp, pts, path)
+                    emit("path", rp, pts, path, src=e)
             elif t == "SOLID":
                 if pts[3] != pts[2]:
                     pts = [pts[0], pts[1], pts[3], pts[2]]
                 else:
                     pts = pts[:3]
-                emit("fill", rp, pts, path)
+                emit("fill", rp, pts, path, src=e)
             elif t == "CIRCLE":
-                emit("curve", rp, pts, path, {"m": acc, "c": e["pts"][0], "r": e["r"]})
+                emit("curve", rp, pts, path, {"m": acc, "c": e["pts"][0], "r": e["r"]}, src=e)
 
-    walk(desc["layouts"][layout_name], None, IDENT, [], True)
+    top = desc["layouts"][layout_name]
+    if keep is not None:
+        top = [e for e in top if keep(e)]
+    walk(top, None, IDENT, [], True)
     return out
 
 
@@ -817,7 +1219,7 @@ def shear_fallback(path):
     return False
 
 
-def walk_paths(desc, layout_name):
+def walk_paths(desc, layout_name, ents=None):
     """all INSERT paths of a layout (lists of insert dicts), for acyclic closed documents"""
     blocks = {b["name"].lower(): b for b in desc["blocks"]}
     out = []
@@ -831,7 +1233,7 @@ def walk_paths(desc, layout_name):
                     raise RecursionError
                 go(blocks[e["name"].lower()]["ents"], p)
 
-    go(desc["layouts"][layout_name], [])
+    go(desc["layouts"][layout_name] if ents is None else ents, [])
     return out
 
 
@@ -880,30 +1282,67 @@ def desc_by_id(docid, rngkey):
 
 
 def correspond(ctx):
-    cases_draw, cases_spec, cases_reach = [], [], []
-    nq = ctx.n(400, 6000)
-    for docid, key, desc in doc_stream(ctx, [("quarter", nq), ("safe", nq // 2)]):
+    cases_draw, cases_spec, cases_reach, cases_lawful = [], [], [], []
+    approx = []  # (stream, request, observation, nontrivial, expectation) compared under tolerance after the driver ran
+    nq = ctx.n(400, 5000)
+    plan = [("quarter", nq), ("safe", nq // 2), ("rational", nq // 2), ("rational-any", nq // 4)]
+    for docid, key, desc in doc_stream(ctx, plan):
+        rational = desc["mode"] in ("rational", "rational-any")
         doc = build(desc)
         combos = [("msp", False), ("msp", True), ("psp", False), ("psp", True)]
         if key is not None:
             r = ctx.rng("combo/" + docid)
             combos = [("msp", r.random() < 0.3), ("psp", r.random() < 0.5)]
+        rr = ctx.rng("ctbkeep/" + docid)
         for lay, export in combos:
-            obs = observe(doc, lay, export)
-            body = encode(desc, doc, lay, export)
-            resp = canon(obs)
-            has_ins = any(e["t"] == "INSERT" and not e["invisible"] for e in desc["layouts"][lay])
+            # a third of the runs with a plot style table that overrides lineweights / colours, a quarter with a filter_func
+            ctb = gen_ctb(rr) if rr.random() < 0.33 else None
+            top = desc["layouts"][lay]
+            keep = None
+            if rr.random() < 0.25 and top:
+                keep = sorted(e["_h"] for e in top if rr.random() < 0.6)
+            kset = set(keep) if keep is not None else None
+            ff = (lambda ent: int(ent.dxf.handle, 16) in kset) if kset is not None else None
+            # a fifth of the unfiltered runs with a layer property override function (set_layer_properties_override)
+            ovf = rr.choice(LAYER_OVERRIDES) if (keep is None and rr.random() < 0.2) else None
+            if ovf is not None and not rational:
+                approx.append(("X7 draw with layer property override", "draw|" + encode(desc, doc, lay, export, None, None, ovf=ovf),
+                               observe(doc, lay, export, layer_override=ovf), True, False))
+                ctx.hist("X7 draw with layer property override", ovf)
+            obs = observe(doc, lay, export, ctb=ctb, filter_func=ff)
+            tables = ctb_tables(obs[2]) if (ctb is not None and obs[0] == "ok") else None
+            if ctb is not None and tables is None:
+                from ezdxf.addons.drawing import RenderContext
+                tables = ctb_tables(RenderContext(doc, ctb=ctb))
+            body = encode(desc, doc, lay, export, tables, keep)
+            has_ins = any(e["t"] == "INSERT" and not e["invisible"] and (kset is None or e["_h"] in kset) for e in top)
             ctx.hist("X1 draw", "error-class" if obs[0] == "err" else ("with-insert" if has_ins else "leaf-only"))
-            cases_draw.append(("draw|" + body, resp, has_ins))
+            if ctb is not None:
+                ctx.hist("X1 draw", "with plot style table overrides")
+            if keep is not None:
+                ctx.hist("X1 draw", "with filter_func")
+            if any(e["t"] == "INSERT" and e.get("grid") for e in top) or any(e["t"] == "INSERT" and e.get("grid") for b in desc["blocks"] for e in b["ents"]):
+                ctx.hist("X1 draw", "document with MINSERT")
+            fb = layout_fallback(desc, lay)
+            if rational:
+                approx.append(("X1r draw (rational rotations, tolerance 1e-9)", "draw|" + body, obs, has_ins, fb))
+            else:
+                cases_draw.append(("draw|" + body, canon(obs), has_ins))
             if obs[0] == "ok":
+                kept = [e for e in top if kset is None or e["_h"] in kset]
                 try:
-                    walk_paths(desc, lay)
+                    walk_paths(desc, lay, kept)
                     tree = True
                 except (RecursionError, KeyError):
                     tree = False  # cyclic / dangling reference below an invisible INSERT: no block tree
                 ctx.hist("X2 spec", "block tree" if tree else "no block tree (draw ok: bad reference is invisible)")
-                cases_spec.append(("spec|" + body, resp if tree else "no-tree", has_ins))
-        # validity predicate of draw_total vs. the audit verdict
+                sbody = encode(desc, doc, lay, export, tables, None, ents=kept) if (tables is not None or keep is not None) else encode(desc, doc, lay, export, ents=kept)
+                if rational:
+                    if not fb:  # in the fall-back case the front end does NOT draw what the document defines (finding F20)
+                        approx.append(("X2r spec (rational rotations, tolerance 1e-9)", "spec|" + sbody, obs if tree else ("no-tree",), has_ins, False))
+                else:
+                    cases_spec.append(("spec|" + sbody, canon(obs) if tree else "no-tree", has_ins))
+        # validity predicate of draw_total vs. the audit verdict; lawfulness of the block tree vs. an independent shear test
         for lay in ("msp", "psp"):
             body = encode(desc, doc, lay, False)
             try:
@@ -911,35 +1350,283 @@ def correspond(ctx):
                 ok = True
             except (RecursionError, KeyError):
                 ok = False
-            cases_reach.append(("reach|" + body, "1" if ok else "0", any(e["t"] == "INSERT" for e in desc["layouts"][lay])))
+            nontriv = any(e["t"] == "INSERT" for e in desc["layouts"][lay])
+            cases_reach.append(("reach|" + body, "1" if ok else "0", nontriv))
+            if ok:
+                fb = any(shear_fallback(p) for p in paths)
+                ctx.hist("X4 lawful", "sheared nested INSERT (explode fall-back)" if fb else "lawful block tree")
+                cases_lawful.append(("lawful|" + body, "0" if fb else "1", nontriv and any(len(p) > 1 for p in paths)))
     deps = ["EzdxfVerif.Model.Render", "EzdxfVerif.Gen.RenderTables", "Drivers.Proto"]
     ctx.correspond("X1 draw", "C18", cases_draw, build=deps)
     ctx.correspond("X2 spec", "C18", cases_spec)
     ctx.correspond("X3 reach", "C18", cases_reach)
+    ctx.correspond("X4 lawful", "C18", cases_lawful)
+    # tolerance streams: the driver answers exactly (rationals), the comparison is done here
+    outs = ctx.driver("C18", [a[1] for a in approx])
+    for (stream, req, obs, nontriv, fb), model in zip(approx, outs):
+        impl = "no-tree" if obs[0] == "no-tree" else canon_float(obs)
+        ctx.count(stream, req, nontriv, sample={"request": req[:300], "impl": impl[:300], "model": model[:300]})
+        ctx.cov["disagreements_checked"] += 1
+        if fb:
+            ctx.hist(stream, "layout with a sheared nested INSERT: explode fall-back (F20) followed by the model")
+        if model.startswith("outside"):
+            ctx.hist(stream, "outside the model (" + model + ")")
+            good = True
+        elif obs[0] == "no-tree":
+            good = model == "no-tree"
+        else:
+            ctx.hist(stream, "compared under tolerance")
+            good = approx_equal(obs, model)
+        if not good:
+            ctx.disagree(stream, req, impl, model)
+    correspond_layers(ctx)
+    correspond_viewports(ctx)
+    correspond_viewport_content(ctx)
+    correspond_redraw_order(ctx)
+
+
+def canon_float(obs):
+    if obs[0] == "err":
+        return "err " + obs[1]
+    out = []
+    for p in obs[1]:
+        lw = Fr(p["lw"]).limit_denominator(1000)
+        pts = " ".join("%.9g %.9g" % (x, y) for x, y in p["pts"])
+        out.append(",".join([p["kind"], p["color"], str(p["pen"]), p["layer"], p["ltype"], _rat(lw), str(_hnum(p["handle"])), pts]))
+    return "ok " + ";".join(out)
+
+
+def correspond_layers(ctx):
+    """X5: the layer table the traversal works with - RenderContext(doc).from_viewport(vp) for a VIEWPORT with frozen layers
+    and per-viewport layer property overrides (Layer.get_vp_overrides) vs. the model's mkVpCtxOv / applyOverride /
+    resolveLayerProps"""
+    from ezdxf.addons.drawing import RenderContext
+    from ezdxf import colors
+    import random
+
+    cases = []
+    for i in range(ctx.n(60, 600)):
+        key = f"{ctx.seed}/{ctx.pid}/layers/{i}"
+        rng = random.Random(key)
+        desc = gen_doc(rng, "quarter", depth=1)
+        doc = build(desc)
+        names = [l.dxf.name for l in doc.layers]
+        frozen = [_case_variant(rng, n) for n in rng.sample(names, rng.randint(0, min(3, len(names))))]
+        if rng.random() < 0.3:
+            frozen.append("NoSuchLayer")
+        psp = doc.layout("Layout1")
+        vp = psp.add_viewport(center=(5, 5), size=(4, 4), view_center_point=(0, 0), view_height=10)
+        other = psp.add_viewport(center=(15, 5), size=(4, 4), view_center_point=(0, 0), view_height=10)
+        vp.frozen_layers = list(frozen)
+        layers_before = ";".join(",".join(str(x) for x in l) for l in read_layers(doc))
+        ovs = []
+        for layer in doc.layers:
+            r = rng.random()
+            if r < 0.55:
+                continue
+            ov = layer.get_vp_overrides()
+            h = vp.dxf.handle if r < 0.9 else other.dxf.handle  # overrides of ANOTHER viewport must not leak
+            if rng.random() < 0.7:
+                ov.set_color(h, rng.choice([1, 2, 7, 7, 30, 254, 255]))
+            if rng.random() < 0.4:
+                ov.set_rgb(h, rng.choice([(1, 2, 3), (255, 255, 255), (0, 128, 255)]))
+            if rng.random() < 0.4:
+                ov.set_transparency(h, rng.choice([0.0, 0.5, 0.2, 1.0]))
+            if rng.random() < 0.4:
+                ov.set_linetype(h, rng.choice(["Continuous", "DASHED", "CENTER"]))
+            if rng.random() < 0.4:
+                ov.set_lineweight(h, rng.choice([-3, 0, 13, 50, 211]))
+            ov.commit()
+            # what the DOCUMENT now stores (one raw colour per viewport: an RGB override replaces the ACI override)
+            ov = layer.get_vp_overrides()
+            if h == vp.dxf.handle and ov.has_overrides(h):
+                rgb = ov.get_rgb(h)
+                ovs.append(":".join([layer.dxf.name, str(ov.get_color(h)), "-" if rgb is None else str((rgb[0] << 16) | (rgb[1] << 8) | rgb[2]),
+                                     str(colors.float2transparency(ov.get_transparency(h))), ov.get_linetype(h), str(ov.get_lineweight(h))]))
+        for export in (False, True):
+            rctx = RenderContext(doc, export_mode=export)
+            rctx.set_current_layout(psp)
+            vctx = rctx.from_viewport(vp)
+            got = ";".join(
+                ",".join([k, lp.layer, lp.color, str(lp.pen), lp.linetype_name, _rat(Fr(lp.lineweight).limit_denominator(1000)),
+                          "1" if lp.is_visible else "0", "1" if lp.has_aci_color_7 else "0"])
+                for k, lp in vctx.layers.items())
+            ctx.hist("X5 layer table (viewport frozen layers, property overrides)", "with property overrides" if ovs else "without")
+            cases.append((f"layers|psp|{int(export)}|{layers_before}|{';'.join(frozen)}|{';'.join(ovs)}", got, bool(frozen) or bool(ovs)))
+    ctx.correspond("X5 layer table (viewport frozen layers, property overrides)", "C18", cases)
+
+
+def correspond_viewport_content(ctx):
+    """X8: a paperspace layout with 1-3 top-view VIEWPORT entities (status values incl. 'active' and off, frozen layers,
+    per-viewport layer property overrides, dyadic scale and offset, showing the whole modelspace so that nothing is clipped):
+    Frontend.draw_layout(psp) vs. the model's drawLayoutVp (own entities, then for every selected viewport the modelspace
+    entities drawn with from_viewport's layer table and mapped by the viewport matrix)"""
+    import random
+    from ezdxf import colors
+
+    cases = []
+    for i in range(ctx.n(70, 800)):
+        key = f"{ctx.seed}/{ctx.pid}/vpc/{i}"
+        rng = random.Random(key)
+        desc = gen_doc(rng, "quarter", depth=rng.choice([1, 2, 2, 3]))
+        for b in desc["blocks"]:
+            b["ents"] = [e for e in b["ents"] if e["t"] != "CIRCLE"]
+        for lay in ("msp", "psp"):
+            desc["layouts"][lay] = [e for e in desc["layouts"][lay] if e["t"] != "CIRCLE"]
+        doc = build(desc)
+        psp = doc.layout("Layout1")
+        names = [l.dxf.name for l in doc.layers]
+        layers_before = ";".join(",".join(str(x) for x in l) for l in read_layers(doc))
+        vps = []
+        for k in range(rng.randint(1, 3)):
+            scale = rng.choice([Fr(1), Fr(1, 2), Fr(1, 4), Fr(2)])
+            vh = 8192
+            size = float(vh * scale)
+            center = (Q * rng.randint(-40, 40), Q * rng.randint(-40, 40))
+            vc = (Q * rng.randint(-8, 8), Q * rng.randint(-8, 8))
+            vp = psp.add_viewport(center=_f(center), size=(size, size), view_center_point=_f(vc), view_height=vh,
+                                  status=rng.choice([2, 2, 3, 1, 0, -1, 5]))
+            frozen = [_case_variant(rng, n) for n in rng.sample(names, rng.randint(0, min(2, len(names))))]
+            vp.frozen_layers = list(frozen)
+            ovs = []
+            for layer in doc.layers:
+                if rng.random() < 0.75:
+                    continue
+                ov = layer.get_vp_overrides()
+                h = vp.dxf.handle
+                if rng.random() < 0.7:
+                    ov.set_color(h, rng.choice([1, 2, 7, 30, 254]))
+                if rng.random() < 0.3:
+                    ov.set_rgb(h, rng.choice([(1, 2, 3), (0, 128, 255)]))
+                if rng.random() < 0.4:
+                    ov.set_lineweight(h, rng.choice([-3, 13, 50]))
+                if rng.random() < 0.3:
+                    ov.set_transparency(h, rng.choice([0.0, 0.5]))
+                ov.commit()
+            for layer in doc.layers:
+                ov = layer.get_vp_overrides()
+                h = vp.dxf.handle
+                if ov.has_overrides(h):
+                    rgb = ov.get_rgb(h)
+                    ovs.append(":".join([layer.dxf.name, str(ov.get_color(h)), "-" if rgb is None else str((rgb[0] << 16) | (rgb[1] << 8) | rgb[2]),
+                                         str(colors.float2transparency(ov.get_transparency(h))), ov.get_linetype(h), str(ov.get_lineweight(h))]))
+            off = (center[0] - vc[0] * scale, center[1] - vc[1] * scale)
+            vps.append((vp, ",".join([str(vp.dxf.status), _rat(scale), _rat(off[0]), _rat(off[1]), "&".join(frozen), "&".join(ovs)])))
+        # overrides are written per viewport: re-read the raw layer table (unchanged by overrides) once more for safety
+        for export in (False, True):
+            obs = observe(doc, "psp", export)
+            body = encode(desc, doc, "psp", export)
+            mspents = ";".join(_enc_ent(e) for e in desc["layouts"]["msp"])
+            req = "drawvp|" + body + "|" + ";".join(v[1] for v in vps) + "|" + mspents
+            ctx.hist("X8 paperspace with viewports", f"{len(vps)} viewport(s)")
+            cases.append((req, canon(obs), True))
+    ctx.correspond("X8 paperspace with viewports", "C18", cases)
+
+
+def correspond_redraw_order(ctx):
+    """X9: layouts with a redraw order table (ACAD_SORTENTS, layout.set_redraw_order): sort handles that collide, are 0, are
+    handles of other entities; with and without filter_func. Frontend.draw_layout vs. the model's drawLayoutOrdered"""
+    import random
+
+    cases = []
+    for i in range(ctx.n(60, 700)):
+        key = f"{ctx.seed}/{ctx.pid}/order/{i}"
+        rng = random.Random(key)
+        desc = gen_doc(rng, "quarter", depth=rng.choice([1, 2]))
+        for _ in range(rng.randint(1, 3)):
+            desc["layouts"]["msp"].append(gen_leaf(rng, [s[0] for s in desc["layers"]], False, False))
+        doc = build(desc)
+        msp = doc.modelspace()
+        top = desc["layouts"]["msp"]
+        hs = [e["_h"] for e in top]
+        mapping = {}
+        for e in top:
+            if rng.random() < 0.6:
+                mapping[e["_h"]] = rng.choice([0, 1, 5, rng.choice(hs), rng.choice(hs) + 1, 0xFFFF, e["_h"]])
+        if not mapping and top:
+            mapping[top[0]["_h"]] = 0
+        msp.set_redraw_order({"%X" % a: "%X" % b for a, b in mapping.items()})
+        keep = None
+        if rng.random() < 0.3:
+            keep = sorted(h for h in hs if rng.random() < 0.7)
+        kset = set(keep) if keep is not None else None
+        ff = (lambda ent: int(ent.dxf.handle, 16) in kset) if kset is not None else None
+        obs = observe(doc, "msp", False, filter_func=ff)
+        body = encode(desc, doc, "msp", False)
+        req = "draw|" + body + "||" + ("*" if keep is None else ";".join(str(h) for h in keep)) + "|order|" + \
+              ";".join(f"{a}:{b}" for a, b in mapping.items())
+        cases.append((req, canon(obs), len(top) > 1))
+    ctx.correspond("X9 redraw order table", "C18", cases)
+
+
+def correspond_viewports(ctx):
+    """X6: which VIEWPORT entities _draw_viewports draws (by status) vs. the model's viewportsDrawn"""
+    from ezdxf.addons.drawing import frontend as F
+    from ezdxf.entities import Viewport
+
+    class Fake:
+        def __init__(self):
+            self.drawn = []
+
+        def draw_viewport(self, vp):
+            self.drawn.append(vp.dxf.status)
+
+    rng = ctx.rng("vports")
+    cases = []
+    for i in range(ctx.n(150, 1500)):
+        st = [rng.choice([-1, 0, 1, 1, 2, 3, 4, 7]) for _ in range(rng.randint(0, 6))]
+        fake = Fake()
+        F._draw_viewports(fake, [Viewport.new(dxfattribs={"status": s}) for s in st])
+        cases.append(("vports|" + " ".join(str(x) for x in st), " ".join(str(x) for x in fake.drawn), len(st) > 1))
+    ctx.correspond("X6 viewports drawn", "C18", cases)
 
 
 def _close(a, b, tol=1e-9):
     return abs(a - b) <= tol * (1 + abs(b))
 
 
-def check_doc(ctx, docid, key, desc, lay, export, exact, stream="O1 spec"):
-    """the property's observable predicate on the real code for one document/layout/configuration"""
-    rep = {"docid": docid, "rngkey": key, "layout": lay, "export": export}
+def check_doc(ctx, docid, key, desc, lay, export, exact, stream="O1 spec", opt=None):
+    """the property's observable predicate on the real code for one document/layout/configuration;
+    opt = {"ctb": rng key of a generated plot style table | None, "keep": indices of the layout entities that pass filter_func | None}"""
+    import random
+
+    opt = opt or {}
+    rep = {"docid": docid, "rngkey": key, "layout": lay, "export": export, "opt": opt}
     doc = build(desc)
+    ctb = gen_ctb(random.Random(opt["ctb"])) if opt.get("ctb") else None
+    keep_idx = opt.get("keep")
+    kset = None if keep_idx is None else {desc["layouts"][lay][i]["_h"] for i in keep_idx}
+    ff = (lambda ent: int(ent.dxf.handle, 16) in kset) if kset is not None else None
     auditor = doc.audit()
     audited = not auditor.has_errors and not auditor.has_fixes
     ctx.hist(stream, "audited" if audited else "not audit-clean: skipped")
     if not audited:
         return None  # the property quantifies over documents that pass audit (audit() also repairs the document)
-    obs = observe(doc, lay, export)
-    ctx.count(stream, (docid, lay, export), any(e["t"] == "INSERT" for e in desc["layouts"][lay]))
+    obs = observe(doc, lay, export, ctb=ctb, filter_func=ff)
+    ctx.count(stream, (docid, lay, export, repr(opt)), any(e["t"] == "INSERT" for e in desc["layouts"][lay]))
+    if ctb is not None:
+        ctx.hist(stream, "with plot style table overrides")
+    if kset is not None:
+        ctx.hist(stream, "with filter_func")
     if obs[0] == "err":
         ctx.fail(f"raise/{obs[1]}/{docid}/{lay}", f"front end raised {obs[1]} for an audited document ({docid}, {lay})", rep)
         return None
     got, rctx = obs[1], obs[2]
     if rctx._saved_states or rctx.current_block_reference_properties is not None:
         ctx.fail(f"stack/{docid}/{lay}", f"block reference state stack not restored after draw_layout ({docid}, {lay})", rep)
-    spec = spec_flatten(desc, lay, read_layers(doc), FG[lay], export, aci_table(), exact)
+    ctb_lw, aci_rgb = None, aci_table()
+    if ctb is not None:
+        # the independent reading of the CTB: entries with an explicit lineweight index / colour
+        from ezdxf.addons import acadctb
+        ctb_lw, aci_rgb = {}, list(aci_rgb)
+        for aci in range(1, 256):
+            st = ctb[aci]
+            if st.lineweight != acadctb.OBJECT_LINEWEIGHT:
+                ctb_lw[aci] = Fr(float(ctb.lineweights[st.lineweight])).limit_denominator(10000)
+            if not st.has_object_color():
+                aci_rgb[aci] = (st.color[0] << 16) | (st.color[1] << 8) | st.color[2]
+    spec = spec_flatten(desc, lay, read_layers(doc), FG[lay], export, aci_rgb, exact, ctb_lw,
+                        (lambda e: e["_h"] in kset) if kset is not None else None)
     fb = "" if exact else ("explode-fallback/" if layout_fallback(desc, lay) else "")
     if fb:
         ctx.hist(stream, "layout with a sheared nested INSERT (F20)")
@@ -953,7 +1640,7 @@ def check_doc(ctx, docid, key, desc, lay, export, exact, stream="O1 spec"):
             if g[k] != s[k]:
                 ctx.fail(f"{fb}props/{k}/{docid}/{lay}/{int(export)}/{i}",
                          f"{docid} {lay} export={export} primitive {i} ({g['dxftype']}): {k} = {g[k]!r}, the document defines {s[k]!r}", rep)
-        if abs(g["lw"] - float(s["lw"])) > 1e-12:
+        if abs(g["lw"] - float(s["lw"])) > (1e-12 if ctb is None else 1e-6):  # CTB lineweights are stored as float32
             ctx.fail(f"{fb}props/lineweight/{docid}/{lay}/{int(export)}/{i}",
                      f"{docid} {lay} primitive {i}: lineweight {g['lw']} expected {float(s['lw'])}", rep)
         bad = len(g["pts"]) != len(s["pts"]) or any(
@@ -984,8 +1671,8 @@ def circle_ok(path, s):
 
 
 def oracle(ctx):
-    n = ctx.n(190, 4000)
-    plan = [("quarter", n), ("safe", n), ("angle", n), ("angle-any", n // 2)]
+    n = ctx.n(190, 3400)
+    plan = [("quarter", n), ("safe", n), ("angle", n), ("angle-any", n // 2), ("rational", n // 2), ("rational-any", n // 4)]
     json_every, dash_every = 3, 4
     k = 0
     for docid, key, desc in doc_stream(ctx, plan):
@@ -993,9 +1680,16 @@ def oracle(ctx):
         r = ctx.rng("ocombo/" + docid)
         combos = [("msp", False), ("psp", True)] if key is None else [("msp", r.random() < 0.3), ("psp", r.random() < 0.5)]
         for lay, export in combos:
-            res = check_doc(ctx, docid, key, desc, lay, export, exact)
+            opt = {}
+            if key is not None and r.random() < 0.25:
+                opt["ctb"] = f"{key}/ctb/{lay}"
+            if key is not None and r.random() < 0.2 and desc["layouts"][lay]:
+                opt["keep"] = [i for i in range(len(desc["layouts"][lay])) if r.random() < 0.6]
+            res = check_doc(ctx, docid, key, desc, lay, export, exact, opt=opt)
             if res is None:
                 continue
+            if opt:
+                continue  # JSON / dash / handle comparisons use the plain configuration
             doc, got, spec = res
             k += 1
             handle_check(ctx, docid, key, desc, doc, lay, export, got, spec)
@@ -1003,26 +1697,142 @@ def oracle(ctx):
                 json_check(ctx, docid, key, doc, lay, export, got)
             if k % dash_every == 0:
                 dash_check(ctx, docid, key, desc, doc, lay, export, spec)
+    viewport_oracle(ctx)
+
+
+def viewport_oracle(ctx):
+    """O5: a paperspace layout with one top-view VIEWPORT that shows the whole modelspace: what arrives at the backend must be the
+    paperspace entities followed by the modelspace content as the document defines it for that viewport - layers frozen in the
+    viewport hide their entities at EVERY nesting depth, per-viewport layer property overrides apply at every depth, coordinates
+    mapped by scale and offset of the viewport"""
+    import random
+    from ezdxf import colors
+
+    for i in range(ctx.n(60, 900)):
+        key = f"{ctx.seed}/{ctx.pid}/O5/{i}"
+        rep = {"docid": f"vp/{i}", "rngkey": key, "layout": "psp", "export": False, "op": "viewport"}
+        viewport_case(ctx, key, rep)
+
+
+def viewport_case(ctx, key, rep):
+    import random
+    from ezdxf import colors
+
+    rng = random.Random(key)
+    desc = gen_doc(rng, rng.choice(["quarter", "safe"]), depth=rng.choice([1, 2, 2, 3]))
+    for b in desc["blocks"]:
+        b["ents"] = [e for e in b["ents"] if e["t"] != "CIRCLE"]
+    for lay in ("msp", "psp"):
+        desc["layouts"][lay] = [e for e in desc["layouts"][lay] if e["t"] != "CIRCLE"]
+    doc = build(desc)
+    if doc.audit().has_errors:
+        return
+    psp = doc.layout("Layout1")
+    names = [l.dxf.name for l in doc.layers]
+    vh = 8192
+    base0 = {l[0]: list(l) for l in read_layers(doc)}
+    views = []  # (status, scale, offset, layer table of the viewport, frozen names)
+    for k in range(rng.choice([1, 1, 2, 3])):
+        scale = rng.choice([Fr(1), Fr(1, 2), Fr(1, 4), Fr(2)])
+        center = (Q * rng.randint(-40, 40), Q * rng.randint(-40, 40))
+        vc = (Q * rng.randint(-8, 8), Q * rng.randint(-8, 8))
+        status = 2 if k == 0 and rng.random() < 0.5 else rng.choice([1, 2, 3, 0, -1])
+        vp = psp.add_viewport(center=_f(center), size=(float(vh * scale), float(vh * scale)), view_center_point=_f(vc), view_height=vh,
+                              status=status)
+        frozen = [_case_variant(rng, n) for n in rng.sample(names, rng.randint(1, min(3, len(names))))]
+        vp.frozen_layers = list(frozen)
+        base = {n: list(r) for n, r in base0.items()}
+        for layer in doc.layers:
+            if rng.random() < 0.7:
+                continue
+            ov = layer.get_vp_overrides()
+            h = vp.dxf.handle
+            row = base[layer.dxf.name]
+            # the document stores ONE raw colour per viewport: an ACI override is only expressible for a layer without true colour
+            if rng.random() < 0.6 and row[2] < 0:
+                aci = rng.choice([1, 2, 30, 254])
+                ov.set_color(h, aci)
+                row[1] = aci if row[1] >= 0 else -aci
+            elif rng.random() < 0.5:
+                rgb = rng.choice([(1, 2, 3), (0, 128, 255)])
+                ov.set_rgb(h, rgb)
+                row[2] = (rgb[0] << 16) | (rgb[1] << 8) | rgb[2]
+            if rng.random() < 0.5:
+                lw = rng.choice([13, 50, 100])
+                ov.set_lineweight(h, lw)
+                row[5] = lw
+            ov.commit()
+        fk = {n.lower() for n in frozen}
+        layers = []
+        for name, row in base.items():
+            row = list(row)
+            if name.lower() in fk:
+                row[6] |= 1  # frozen in this viewport
+            layers.append(tuple(row))
+        views.append((status, scale, (center[0] - vc[0] * scale, center[1] - vc[1] * scale), layers, frozen))
+    # which viewports are drawn, in which order (DXF reference / documented rule of _draw_viewports): by ascending status, off
+    # (status <= 0) not at all, the first one not if it is the "active" viewport (status 1)
+    order = sorted(range(len(views)), key=lambda j: views[j][0])
+    order = [j for j in order if views[j][0] > 0]
+    if order and views[order[0]][0] == 1:
+        order = order[1:]
+    ctx.count("O5 viewport", key, True)
+    obs = observe(doc, "psp", False)
+    if obs[0] == "err":
+        ctx.fail(f"raise/{obs[1]}/vp/{rep['docid']}", f"front end raised {obs[1]} for a paperspace layout with a viewport", rep)
+        return
+    own = spec_flatten(desc, "psp", read_layers(doc), FG["psp"], False, aci_table(), True)
+    spec = list(own)
+    fk, frozen = set(), []
+    for j in order:
+        status, scale, off, layers, fr = views[j]
+        inside = spec_flatten(desc, "msp", layers, FG["psp"], False, aci_table(), True)
+        for s in inside:
+            s["pts"] = [(x * scale + off[0], y * scale + off[1]) for x, y in s["pts"]]
+        spec += inside
+        if len(order) == 1:
+            fk, frozen = {n.lower() for n in fr}, fr
+    got = obs[1]
+    if [g["kind"] for g in got] != [s["kind"] for s in spec]:
+        on_frozen = [g["layer"] for g in got if g["layer"].lower() in fk]
+        ctx.fail(f"viewport/count/{rep['docid']}",
+                 f"{rep['docid']}: paperspace with a viewport (frozen layers {frozen}): drawn {[g['kind'] for g in got]} expected "
+                 f"{[s['kind'] for s in spec]}" + (f"; primitives on layers frozen in the viewport: {on_frozen}" if on_frozen else ""), rep)
+        return
+    for i, (g, s) in enumerate(zip(got, spec)):
+        for k in ("color", "pen", "layer", "ltype"):
+            if g[k] != s[k]:
+                ctx.fail(f"viewport/props/{k}/{rep['docid']}/{i}",
+                         f"{rep['docid']} primitive {i} ({g['dxftype']}, depth {len(s['path'])}): {k} = {g[k]!r}, the document defines {s[k]!r} for this viewport", rep)
+        if abs(g["lw"] - float(s["lw"])) > 1e-12:
+            ctx.fail(f"viewport/props/lineweight/{rep['docid']}/{i}", f"{rep['docid']} primitive {i}: lineweight {g['lw']} expected {float(s['lw'])}", rep)
+        if len(g["pts"]) != len(s["pts"]) or any(not (_close(a[0], float(b[0])) and _close(a[1], float(b[1]))) for a, b in zip(g["pts"], s["pts"])):
+            ctx.fail(f"viewport/geom/{rep['docid']}/{i}", f"{rep['docid']} primitive {i}: drawn at {g['pts'][:3]}, expected {[(float(x), float(y)) for x, y in s['pts'][:3]]}", rep)
 
 
 def handle_check(ctx, docid, key, desc, doc, lay, export, got, spec):
-    """BackendProperties.handle is documented as the handle of the top level entity"""
-    layout = doc.modelspace() if lay == "msp" else doc.layout("Layout1")
-    tops = list(layout)
-    index = {id(e): i for i, e in enumerate(desc["layouts"][lay])}
+    """BackendProperties.handle is documented as the handle of the top level entity: an entity of the layout is reported
+    under its own handle; everything a block reference draws (block content at any depth, grid elements of a MINSERT, nested
+    ATTRIBs) under the handle of the top level reference; the ATTRIB entities attached directly to a top level INSERT are
+    database entities of their own and are reported under their own handle"""
     ctx.count("O4 handle", (docid, lay, export), True)
     for i, (g, s) in enumerate(zip(got, spec)):
-        if g["kind"] in ("attrib", "attdef"):
-            continue
-        top = index[id(s["path"][0])] if s["path"] else None
-        if top is None:
-            continue  # leaf entities of the layout: checked below by order
-        want = tops[top].dxf.handle
-        if g["handle"] != want:
-            att = [a.dxf.handle for a in tops[top].attribs]
-            cls = "attrib-shadows-insert" if g["handle"] in att else "other"
+        if s["path"]:
+            top = s["path"][0]
+            own = s.get("own")
+            want = own["_h"] if own is not None else top["_h"]
+            what = "ATTRIB of the top level INSERT" if own is not None else "content of INSERT"
+        else:
+            top = s["src"]
+            want = top["_h"]
+            what = "layout entity"
+        have = _hnum(g["handle"])
+        ctx.hist("O4 handle", what)
+        if have != want:
+            att = [a.get("_h") for a in top.get("attribs", [])] if isinstance(top, dict) else []
+            cls = "attrib-shadows-insert" if (have in att and s.get("own") is None) else "other"
             ctx.fail(f"handle/{cls}/{docid}/{lay}",
-                     f"{docid} {lay}: primitive {i} of INSERT #{want} is sent with handle #{g['handle']}"
+                     f"{docid} {lay}: primitive {i} ({g['kind']}, {what} #{top['_h']:X}) is sent with handle #{have:X}, expected #{want:X}"
                      + (" (its last ATTRIB)" if cls != "other" else ""),
                      {"docid": docid, "rngkey": key, "layout": lay, "export": export, "op": "handle"})
             return
@@ -1125,10 +1935,19 @@ def replay(ctx, rep):
     for f in rep.get("failing_inputs", []):
         r = f["replay"]
         sub = type(ctx)(ctx.pid, ctx.tier, ctx.seed)
+        if r.get("op") == "viewport":
+            try:
+                viewport_case(sub, r["rngkey"], r)
+            finally:
+                import shutil
+                shutil.rmtree(sub.scratch, ignore_errors=True)
+            if any(x.key == f["key"] for x in sub.failures):
+                bad.append(f["key"])
+            continue
         try:
             desc = desc_by_id(r["docid"], r["rngkey"])
             exact = desc["mode"] in ("quarter", "safe")
-            res = check_doc(sub, r["docid"], r["rngkey"], desc, r["layout"], r["export"], exact)
+            res = check_doc(sub, r["docid"], r["rngkey"], desc, r["layout"], r["export"], exact, opt=r.get("opt"))
             if res is not None:
                 doc, got, spec = res
                 if r.get("op") == "handle":
